@@ -71,6 +71,9 @@ class LFUSpec(CacheSpec):
             return self._store(s, op[1], op[2])
         if kind == "update2":
             return [s2 for s1 in self._store(s, op[1], VALUES[0]) for s2 in self._store(s1, op[2], VALUES[1])]
+        if kind == "update3":
+            return [s3 for s1 in self._store(s, op[1], VALUES[0]) for s2 in self._store(s1, op[2], VALUES[1])
+                    for s3 in self._store(s2, op[2], VALUES[0])]
         if kind in ("get", "getd"):
             return [self._bump(s, op[1])] if present else [s]
         if kind == "setdefault":
